@@ -148,4 +148,23 @@ Definition sstep (M : mat T) (o : sop) : res (mat T * sout) :=
 Definition srun (ops : list sop) (M : mat T) : res (mat T * list sout) :=
   fold_left (fun acc o => let* st := acc in let* st' := sstep (fst st) o in Ok (fst st', snd st ++ [snd st']))
             ops (Ok (M, [])).
+
+(** ** Call histories on SEVERAL Matrix objects, interleaved.
+    The translation unit has no file-scope or function-local statics and the class no static members: the state of a
+    program that holds objects 0 .. m-1 is the list of their entries, and a call on object k reads and changes the
+    k-th element only ([sstep] on it).  A call on an object that does not exist is [OOB] (harness error). *)
+Fixpoint mset (k : nat) (Ms : list (mat T)) (M' : mat T) : list (mat T) :=
+  match Ms, k with
+  | [], _ => []
+  | _ :: r, O => M' :: r
+  | M :: r, S k' => M :: mset k' r M'
+  end.
+Definition mstep (Ms : list (mat T)) (ko : nat * sop) : res (list (mat T) * sout) :=
+  match nth_error Ms (fst ko) with
+  | None => OOB
+  | Some M => let* st := sstep M (snd ko) in Ok (mset (fst ko) Ms (fst st), snd st)
+  end.
+Definition mrun (ops : list (nat * sop)) (Ms : list (mat T)) : res (list (mat T) * list sout) :=
+  fold_left (fun acc o => let* st := acc in let* st' := mstep (fst st) o in Ok (fst st', snd st ++ [snd st']))
+            ops (Ok (Ms, [])).
 End Model.
